@@ -423,7 +423,10 @@ def c01(r):
             row = e["rows"][40]
             if row.get("pa") != 0 or row.get("pb") != 0 or field not in row:
                 return False
-            row[field][idx] += delta
+            if field == "nx":
+                row[field][0][idx] += delta
+            else:
+                row[field][idx] += delta
             return True
         return f
     def dig(e):
